@@ -337,6 +337,8 @@ def run(rep: vlib.Reporter, tier: str, seed: int) -> None:
         "Python issubclass / __mro__ for single-inheritance class forests = list of ancestors (generated universes only)",
         "class names are unique in generated universes (Link.__eq__ compares names)"]
     found = False
+    from harness import srctie      # source-text tie (Props/SrcTie.v): definitions regenerated from the source text = the models
+    found = (not srctie.check(rep)) or found
     big = tier == "thorough"
 
     ic = index_cases()
@@ -463,6 +465,9 @@ def run(rep: vlib.Reporter, tier: str, seed: int) -> None:
 def replay(path: str) -> int:
     r = json.load(open(path))["replay"]
     print(json.dumps(r, indent=1))
+    if r.get("kind") == "srctie":
+        from harness import srctie
+        srctie.replay(r)
     if r.get("kind") == "select":
         from mloda.core.prepare.resolve_links import ResolveLinks
         classes = make_classes(r["parents"], "s")
